@@ -151,6 +151,23 @@ mod proofs {
         std::mem::forget(out); std::mem::forget(chain);
     }
 
+    /// the same over one target (two targets run out of memory): survives iff it passes both filters of the chain
+    #[kani::proof]
+    #[kani::unwind(8)]
+    fn chain_is_composition_one_target() {
+        let m1 = any_meta();
+        let (r1, k1, key1, a1, b1) = any_rule();
+        let (r2, k2, key2, a2, b2) = any_rule();
+        let chain = vec![MetaFilterAdapter::new(vec![r1]), MetaFilterAdapter::new(vec![r2])];
+        let uid = Uuid::from_u128(7);
+        let out = take(chain.filter(&addr(), ("h", 1), 770, ("p", &uid), vec![target(1, m1)]));
+        let ok1 = ref_rule(k1, key1, a1, b1, m1) && ref_rule(k2, key2, a2, b2, m1);
+        assert!(out.len() == ok1 as usize, "a target survives the chain iff it passes every filter");
+        kani::cover!(out.len() == 0 && ref_rule(k1, key1, a1, b1, m1), "dropped by the second filter only");
+        kani::cover!(out.len() == 1, "passes both");
+        std::mem::forget(out); std::mem::forget(chain);
+    }
+
     /// strategies: `any` picks the first candidate; `player fill` the fullest one strictly below capacity (missing or
     /// non-numeric counts read as 0), none if all are full
     #[kani::proof]
